@@ -1,17 +1,22 @@
 package props
 
 import (
+	"encoding/hex"
 	"encoding/json"
 	"fmt"
 	"io"
 	"os"
 	"path/filepath"
+	"sort"
 	"strings"
 	"time"
+
+	"github.com/decred/dcrd/dcrec/secp256k1/v4"
 
 	"github.com/elnosh/gonuts/cashu"
 	"github.com/elnosh/gonuts/cashu/nuts/nut04"
 	"github.com/elnosh/gonuts/cashu/nuts/nut05"
+	"github.com/elnosh/gonuts/cashu/nuts/nut20"
 
 	"verif/harness/bfs"
 	"verif/harness/grammar"
@@ -301,6 +306,19 @@ func c06Requests(w *mintops.W, honest []c06Req, pairs bool) []c06Req {
 			}
 			out = append(out, c06Req{Endpoint: "mint", Method: "POST", Path: "/v1/mint/bolt11", Class: "semantic:mint-amount-not-a-key",
 				Body: jsonStr(map[string]any{"quote": q.Q.Id, "outputs": msgsJSON(w.U.Outputs(act, 3))})})
+			if q.Key == nil {
+				// optional NUT-20 field on a quote that was created without a public key: the request may be served (field
+				// ignored) or refused, but not crash nor leave the quote half-way
+				outs := w.U.Outputs(act, world.Split(q.Q.Amount)...)
+				stray, _ := secp256k1.GeneratePrivateKey()
+				good, _ := nut20.SignMintQuote(stray, q.Q.Id, world.Msgs(outs))
+				sigs := map[string]any{"well-formed": hex.EncodeToString(good.Serialize()), "zeros64": strings.Repeat("00", 64), "short-hex": "abcd", "non-hex": "zz", "empty": "", "number": 7}
+				for _, kind := range sortedKeys(sigs) {
+					sig := sigs[kind]
+					out = append(out, c06Req{Endpoint: "mint", Method: "POST", Path: "/v1/mint/bolt11", Class: "semantic:unlocked-quote-with-signature-" + kind,
+						Body: jsonStr(map[string]any{"quote": q.Q.Id, "outputs": msgsJSON(outs), "signature": sig})})
+				}
+			}
 			if q.Key != nil {
 				out = append(out, c06Req{Endpoint: "mint", Method: "POST", Path: "/v1/mint/bolt11", Class: "semantic:mint-locked-quote-without-signature",
 					Body: jsonStr(map[string]any{"quote": q.Q.Id, "outputs": msgsJSON(w.U.Outputs(act, world.Split(q.Q.Amount)...))})})
@@ -309,6 +327,24 @@ func c06Requests(w *mintops.W, honest []c06Req, pairs bool) []c06Req {
 		}
 		out = append(out, c06Req{Endpoint: "mint", Method: "POST", Path: "/v1/mint/bolt11", Class: cls,
 			Body: jsonStr(map[string]any{"quote": q.Q.Id, "outputs": msgsJSON(w.U.Outputs(act, world.Split(q.Q.Amount)...))})})
+	}
+	// optional fields of the quote endpoints
+	pks := map[string]any{"not-on-curve": "02" + strings.Repeat("00", 32), "garbage33": strings.Repeat("ab", 33), "uncompressed": "04" + strings.Repeat("11", 64), "non-hex": "zz", "short": "02ab", "number": 5, "xonly32": strings.Repeat("11", 32)}
+	for _, kind := range sortedKeys(pks) {
+		pk := pks[kind]
+		out = append(out, c06Req{Endpoint: "mintquote", Method: "POST", Path: "/v1/mint/quote/bolt11", Class: "semantic:mintquote-pubkey-" + kind,
+			Body: jsonStr(map[string]any{"amount": 8, "unit": "sat", "pubkey": pk})})
+	}
+	out = append(out, c06Req{Endpoint: "mintquote", Method: "POST", Path: "/v1/mint/quote/bolt11", Class: "semantic:mintquote-long-description",
+		Body: jsonStr(map[string]any{"amount": 8, "unit": "sat", "description": strings.Repeat("d", 5000)})})
+	opts := map[string]any{"mpp-1000": map[string]any{"mpp": map[string]any{"amount": 1000}}, "mpp-0": map[string]any{"mpp": map[string]any{"amount": 0}}, "mpp-empty": map[string]any{"mpp": map[string]any{}},
+		"mpp-null": map[string]any{"mpp": nil}, "mpp-huge": map[string]any{"mpp": map[string]any{"amount": json.Number("18446744073709551615")}}, "mpp-negative": map[string]any{"mpp": map[string]any{"amount": -1}},
+		"other-option": map[string]any{"amountless": map[string]any{"amount_msat": 1000}}, "options-array": []any{1}, "options-string": "mpp"}
+	for _, kind := range sortedKeys(opts) {
+		opt := opts[kind]
+		inv := w.LN.NewExternalInvoice(4)
+		out = append(out, c06Req{Endpoint: "meltquote", Method: "POST", Path: "/v1/melt/quote/bolt11", Class: "semantic:meltquote-options-" + kind,
+			Body: jsonStr(map[string]any{"request": inv.Request, "unit": "sat", "options": opt})})
 	}
 	for _, m := range w.Melts {
 		if u := w.UnspentIdx(3); len(u) > 0 {
@@ -325,6 +361,15 @@ func c06Requests(w *mintops.W, honest []c06Req, pairs bool) []c06Req {
 		}
 	}
 	return out
+}
+
+func sortedKeys(m map[string]any) []string {
+	var ks []string
+	for k := range m {
+		ks = append(ks, k)
+	}
+	sort.Strings(ks)
+	return ks
 }
 
 func copyFile(src, dst string) error {
@@ -560,7 +605,7 @@ var c06All = specMap(c06Specs(true), c06Specs(false))
 func init() {
 	register(&Prop{ID: "C06", Level: "model_checking", QuickBudget: 100 * time.Second, ThoroughBudget: 25 * time.Minute,
 		Run: func(c *rt.Ctx) {
-			c.Cov["rule"] = "E3 builds every state reachable by <= d honest operations from {mint quote (plain / NUT-20), settle, poll, mint, swap, melt quote, melt x {Succeeded, Pending, Failed->NotFound}, rotate}; in each distinct state the request grammar is sent through the real HTTP handler under recover(): for each of the 7 POST endpoints a valid request for this state and all its single structural mutants (every field dropped / null / retyped to string, number, bool, array, object; lists emptied, with a duplicated element, truncated; strings empty / non-hex / odd hex / 10000 chars / wrong-length hex / unknown id / upper-case / shortened; numbers 0, -1, 1.5, 2^63, 2^64-1, 1e30; thorough: all pairs of list-field mutants), whole-body forms (empty, null, [], string, number, {}, truncated, trailing garbage, 5000-deep nesting), wrong Content-Type, other HTTP methods, unsupported {method} path segment, GET endpoints with unknown / non-hex / long / SQL-like ids, and the semantically invalid requests (used input, outputs over inputs, unknown / inactive keyset, duplicate input, unpaid / issued quote, over amount, missing NUT-20 signature, insufficient melt inputs). Oracle: no panic; every non-200 answer leaves the dump of all tables and the Lightning ledger byte-identical and triggers no payment; afterwards every honest request of the state is answered 200"
+			c.Cov["rule"] = "E3 builds every state reachable by <= d honest operations from {mint quote (plain / NUT-20), settle, poll, mint, swap, melt quote, melt x {Succeeded, Pending, Failed->NotFound}, rotate}; in each distinct state the request grammar is sent through the real HTTP handler under recover(): for each of the 7 POST endpoints a valid request for this state and all its single structural mutants (every field dropped / null / retyped to string, number, bool, array, object; lists emptied, with a duplicated element, truncated; strings empty / non-hex / odd hex / 10000 chars / wrong-length hex / unknown id / upper-case / shortened; numbers 0, -1, 1.5, 2^63, 2^64-1, 1e30; thorough: all pairs of list-field mutants), whole-body forms (empty, null, [], string, number, {}, truncated, trailing garbage, 5000-deep nesting), wrong Content-Type, other HTTP methods, unsupported {method} path segment, GET endpoints with unknown / non-hex / long / SQL-like ids, and the semantically invalid requests (used input, outputs over inputs, unknown / inactive keyset, duplicate input, unpaid / issued quote, over amount, missing NUT-20 signature, insufficient melt inputs) and requests carrying optional fields in unusual shapes (a NUT-20 signature on a quote without key: well-formed / zeros / short / non-hex / empty / number; mint-quote pubkey not on the curve / garbage / uncompressed / x-only / non-hex; 5000-char description; melt-quote options mpp 1000 / 0 / empty / null / 2^64-1 / -1 / unknown option / array / string). Oracle: no panic; every non-200 answer leaves the dump of all tables and the Lightning ledger byte-identical and triggers no payment; afterwards every honest request of the state is answered 200"
 			runSpecs(c, c06Specs(c.Quick()))
 		},
 		Worker: bfs.Worker(c06All),
